@@ -217,21 +217,27 @@ fn utf8_name(r: &mut Rng, n_bytes: usize) -> String {
 fn value_for(cfg: &Cfg, val: u32, sz: u8) -> String {
     let mut r = Rng::new(mix(&[cfg.name_seed, u64::from(val), 0x76616c]));
     if cfg.name_mode == 0 {
-        let n = match sz % 8 {
+        let n = match sz % 10 {
             0..=4 => 24 + r.usize_below(40),
             5 => 1019, // 1019 + 5 = 1024: exactly fills the Medium padding bucket
             6 => 4000 + r.usize_below(200),
-            _ => MAX_VALUE,
+            7 => MAX_VALUE,
+            // one byte and well over the size limit: the call must be refused, and the
+            // refusal (error text, audit record) must not carry the value
+            8 => MAX_VALUE + 1,
+            _ => MAX_VALUE + 700 + r.usize_below(300),
         };
         alnum(&mut r, n)
     } else {
-        let n = match sz % 8 {
+        let n = match sz % 10 {
             0 => 1,
             1 => 2 + r.usize_below(6),
             2..=4 => 8 + r.usize_below(120),
             5 => 251, // 251 + 5 = 256: exactly fills the Small padding bucket
             6 => 3000 + r.usize_below(2000),
-            _ => MAX_VALUE,
+            7 => MAX_VALUE,
+            8 => MAX_VALUE + 1,
+            _ => MAX_VALUE + 700 + r.usize_below(300),
         };
         utf8_junk(&mut r, n)
     }
@@ -919,6 +925,9 @@ impl<'a> Run<'a> {
                 let s = self.names.sec(*sec);
                 let name = self.names.secrets[s].clone();
                 let value = value_for(cfg, *val, *sz);
+                if value.len() > MAX_VALUE {
+                    self.ctx.probe("over_limit_value_offered");
+                }
                 self.values.extend(value_needles(&value));
                 let t0 = self.now();
                 let r = self.v().set(&req, &name, &value);
@@ -962,6 +971,9 @@ impl<'a> Run<'a> {
                 let s = self.names.sec(*sec);
                 let name = self.names.secrets[s].clone();
                 let value = value_for(cfg, *val, *sz);
+                if value.len() > MAX_VALUE {
+                    self.ctx.probe("over_limit_value_offered");
+                }
                 self.values.extend(value_needles(&value));
                 let t0 = self.now();
                 let r = self.v().rotate(&req, &name, &value);
@@ -1443,7 +1455,7 @@ fn gen_case(rng: &mut Rng, tier: Tier, index: u64) -> Case {
     };
     let sz = |rng: &mut Rng| -> u8 {
         if rng.chance(1, 40) {
-            7
+            rng.range(7, 9) as u8
         } else if rng.chance(1, 12) {
             rng.range(5, 6) as u8
         } else {
@@ -1529,9 +1541,9 @@ fn gen_case(rng: &mut Rng, tier: Tier, index: u64) -> Case {
         } else if r < 9 && mutating_bias {
             Step::GetVersion { who, sec }
         } else if r < 11 {
-            Step::Rotate { who, sec, val: nv(), sz: rng.below(5) as u8 }
+            Step::Rotate { who, sec, val: nv(), sz: sz(rng) }
         } else if r < 13 {
-            Step::Set { who, sec, val: nv(), sz: rng.below(5) as u8 }
+            Step::Set { who, sec, val: nv(), sz: sz(rng) }
         } else if r < 15 {
             Step::Delete { who, sec }
         } else if r < 17 {
